@@ -259,6 +259,7 @@ func (s *Sorter) SortedBlocks(ctx context.Context, removedCols map[int]struct{},
 		blkPK := make([]string, 0, len(pkIndices))
 		rowPK := make([]string, len(pkIndices))
 		prevRowPK := make([]string, len(pkIndices))
+		hasPrevRow := false
 		dec := objects.NewStrListDecoder(true)
 		n := len(s.chunks)
 		chunkRows := make([]objects.StrList, n)
@@ -318,7 +319,9 @@ func (s *Sorter) SortedBlocks(ctx context.Context, removedCols map[int]struct{},
 			minRow = r.RemoveFrom(minRow)
 			row := dec.Decode(minRow)
 			slice.CopyValuesFromIndices(row, rowPK, pkIndices)
-			pkOK := pkIsDifferent(rowPK, prevRowPK)
+			// the first row has no previous key to equal, even if its key is all empty
+			pkOK := pkIsDifferent(rowPK, prevRowPK) || !hasPrevRow
+			hasPrevRow = true
 			if pkOK {
 				m := len(blk)
 				blk = blk[:m+1]
@@ -409,6 +412,7 @@ func (s *Sorter) SortedRows(ctx context.Context, removedCols map[int]struct{}, e
 		chunkIdx := make([]int, n)
 		pk := make([]string, len(pkIndices))
 		prevPK := make([]string, len(pkIndices))
+		hasPrevRow := false
 		for {
 			minInd := 0
 			var minRow []string
@@ -462,7 +466,9 @@ func (s *Sorter) SortedRows(ctx context.Context, removedCols map[int]struct{}, e
 				break
 			}
 			slice.CopyValuesFromIndices(minRow, pk, pkIndices)
-			pkOK := pkIsDifferent(pk, prevPK)
+			// the first row has no previous key to equal, even if its key is all empty
+			pkOK := pkIsDifferent(pk, prevPK) || !hasPrevRow
+			hasPrevRow = true
 			if pkOK {
 				rows = append(rows, s.removeCols(minRow, removedCols))
 				if s.profiler != nil {
